@@ -26,9 +26,19 @@ pub struct Case14 {
     pub take: u64,
     /// read from a FIFO given as input file instead of stdin
     pub file: bool,
+    /// number of elements in the `items` array of every value of the endless tail (1..=3)
+    #[serde(default = "two")]
+    pub tail_items: u8,
+}
+fn two() -> u8 {
+    2
 }
 
-pub const TAIL: &str = "{\"n\":#,\"items\":[{\"n\":#,\"k\":1},{\"n\":#,\"k\":2}]}\n";
+/// one value of the endless tail; every `#` becomes the repetition counter
+pub fn tail_text(items: u8) -> Vec<u8> {
+    let els: Vec<String> = (1..=items.max(1)).map(|k| format!("{{\"n\":#,\"k\":{}}}", k)).collect();
+    format!("{{\"n\":#,\"items\":[{}]}}\n", els.join(",")).into_bytes()
+}
 
 impl Case14 {
     pub fn args(&self) -> Vec<String> {
@@ -79,7 +89,7 @@ fn tmp_dir() -> std::path::PathBuf {
 static FIFO_SEQ: AtomicU64 = AtomicU64::new(0);
 
 /// run jawk on a FIFO fed by a writer thread; returns (outcome, bytes the writer got rid of, writer hit its budget)
-fn run_fifo(args: &[String], prefix: &[u8], budget: u64) -> Result<(Outcome, u64, bool), String> {
+fn run_fifo(args: &[String], prefix: &[u8], tail: &[u8], budget: u64) -> Result<(Outcome, u64, bool), String> {
     let path = tmp_dir().join(format!("fifo-{}-{:?}", FIFO_SEQ.fetch_add(1, Ordering::Relaxed), std::thread::current().id()).replace(['(', ')'], ""));
     let cpath = std::ffi::CString::new(path.to_str().unwrap()).unwrap();
     if unsafe { libc::mkfifo(cpath.as_ptr(), 0o600) } != 0 {
@@ -91,6 +101,7 @@ fn run_fifo(args: &[String], prefix: &[u8], budget: u64) -> Result<(Outcome, u64
     let writer = {
         let (cancel, written, over) = (cancel.clone(), written.clone(), over.clone());
         let prefix = prefix.to_vec();
+        let tail = tail.to_vec();
         let cpath = cpath.clone();
         std::thread::spawn(move || {
             // non-blocking open until a reader shows up (or the run is over)
@@ -127,7 +138,7 @@ fn run_fifo(args: &[String], prefix: &[u8], budget: u64) -> Result<(Outcome, u64
                     over.store(true, Ordering::SeqCst);
                     return; // closing the write end gives the reader EOF
                 }
-                chunk = expand_tail(TAIL.as_bytes(), count);
+                chunk = expand_tail(&tail, count);
                 count += 1;
             }
         })
@@ -155,8 +166,8 @@ impl Check for C14Stop {
             4 => (0u32..5, 0u32..3).prop_map(|(n, k)| format!("{{\"n\":{},\"items\":[{{\"n\":{},\"k\":{}}}]}}", n, n, k)),
             1 => prop::sample::select(vec!["1", "\"s\"", "null", "[]", "{}", "{\"n\":-1,\"items\":[]}", "{\"items\":[1,2]}", "{\"n\":\"x\"}"]).prop_map(|s| s.to_string()),
         ];
-        (vec(pv, 0..8), any::<[bool; 4]>(), 0u8..3, 0u8..3, 0u64..=3, 0u64..=5, prop::bool::weighted(0.15))
-            .prop_map(|(prefix, b, filter, select, skip, take, file)| Case14 { prefix, set: b[0], split: b[1], filter, select, unique: b[2], only_objects: b[3], skip, take, file })
+        (vec(pv, 0..8), any::<[bool; 4]>(), 0u8..3, 0u8..3, 0u64..=3, 0u64..=5, prop::bool::weighted(0.15), 1u8..=3)
+            .prop_map(|(prefix, b, filter, select, skip, take, file, tail_items)| Case14 { prefix, set: b[0], split: b[1], filter, select, unique: b[2], only_objects: b[3], skip, take, file, tail_items })
             .boxed()
     }
     fn check(&self, case: &Case14) -> CaseResult {
@@ -168,9 +179,10 @@ impl Check for C14Stop {
         }
         // every tail value yields at least one surviving row, so skip+take+2 of them are plenty
         let k = case.skip + case.take + 2;
+        let tail = tail_text(case.tail_items);
         let mut finite = prefix.clone().into_bytes();
         for i in 0..k {
-            finite.extend_from_slice(&expand_tail(TAIL.as_bytes(), i));
+            finite.extend_from_slice(&expand_tail(&tail, i));
         }
         let reference = run(&args, &finite);
         if !reference.res.is_ok() {
@@ -179,12 +191,12 @@ impl Check for C14Stop {
         let slack: u64 = if case.file { 64 * 1024 + 64 * 1024 + 16 * 1024 } else { 64 * 1024 };
         let budget = finite.len() as u64 + slack;
         let (out, pulled, over) = if case.file {
-            match run_fifo(&args, prefix.as_bytes(), budget) {
+            match run_fifo(&args, prefix.as_bytes(), &tail, budget) {
                 Ok(x) => x,
                 Err(e) => return CaseResult::Discard(e),
             }
         } else {
-            let spec = RunSpec { args: args.clone(), stdin: prefix.clone().into_bytes(), endless_tail: Some((TAIL.as_bytes().to_vec(), budget)), ..Default::default() };
+            let spec = RunSpec { args: args.clone(), stdin: prefix.clone().into_bytes(), endless_tail: Some((tail.clone(), budget)), ..Default::default() };
             let (o, x) = run_spec(&spec);
             let pulled = o.bytes_pulled;
             (o, pulled, x.over_budget)
@@ -198,6 +210,7 @@ impl Check for C14Stop {
             .class_if(case.only_objects, "only_objects")
             .class_if(case.file, "fifo_file")
             .class_if(case.take == 0, "take_0")
+            .class_if(case.split && case.tail_items == 1, "split_single_element_arrays")
             .obs(json!({"bytes_pulled": pulled, "finite_reference_len": finite.len(), "stdout": esc_trunc(&out.stdout, 200)}));
         if over {
             return CaseResult::Fail(format!(
@@ -220,7 +233,7 @@ impl Check for C14Stop {
 }
 
 pub fn run_all(ctx: &mut Ctx) {
-    ctx.rule = "skip 0..3, take 0..5 x any subset of --set/--split-by/--filter/--select/--unique/--only-objects-and-arrays x a generated finite prefix followed by an endless stream of qualifying values (each carries a fresh counter, is an object, passes the filter and splits into 2 elements); stdin (instrumented reader, byte-exact count) or a FIFO given as input file (writer thread counts until EPIPE). Oracle: jawk must return Ok with exactly the rows of the finite reference run and must have pulled < len(prefix + (skip+take+2) tail values) + 64 KiB (+ pipe/BufReader capacity for the FIFO); reaching that budget = did not stop. non-trivial = at least one stage in front of the limiter and take >= 1".into();
+    ctx.rule = "skip 0..3, take 0..5 x any subset of --set/--split-by/--filter/--select/--unique/--only-objects-and-arrays x a generated finite prefix followed by an endless stream of qualifying values (each carries a fresh counter, is an object, passes the filter and splits into 1, 2 or 3 elements); stdin (instrumented reader, byte-exact count) or a FIFO given as input file (writer thread counts until EPIPE). Oracle: jawk must return Ok with exactly the rows of the finite reference run and must have pulled < len(prefix + (skip+take+2) tail values) + 64 KiB (+ pipe/BufReader capacity for the FIFO); reaching that budget = did not stop. non-trivial = at least one stage in front of the limiter and take >= 1".into();
     ctx.assumptions = vec!["termination is checked as a byte budget, not with a clock".into()];
     C14Stop.run(ctx);
     let _ = std::fs::remove_dir_all(tmp_dir());
